@@ -2,6 +2,7 @@ SPECIFICATION TraceSpec
 CONSTANTS
   ExpiryDelta = 40
   Dust = 5000
+  Budget = 100
 INVARIANT TypeOK
 POSTCONDITION Accepted
 CHECK_DEADLOCK FALSE
